@@ -215,6 +215,9 @@ fn command_go(
         time = Some(Duration::from_millis(move_time));
     }
 
+    // Raised before the timer thread exists, so that a timer that fires at once is not overridden
+    search_is_running.store(true, Relaxed);
+
     if let Some(time) = time {
         if !infinite {
             // Cut 5 ms from the time because sleep always takes more than given
@@ -239,7 +242,6 @@ fn command_go(
     let thread = thread::spawn({
         #[cfg(daniel729_chess_verif)]
         crate::verif_hooks::schedule_point("before_flag_raise");
-        search_is_running.store(true, Relaxed);
         let data_mutex = data_mutex.clone();
         let search_is_running = search_is_running.clone();
         move || {
@@ -254,6 +256,10 @@ fn command_go(
                 depth,
             );
 
+            // Cleared before the move is announced, so that the commands a GUI sends
+            // in reply to `bestmove` are not refused
+            search_is_running.store(false, Relaxed);
+
             if let Some(best_move) = best_move {
                 println!("bestmove {}", best_move.uci_notation());
             } else {
@@ -262,7 +268,6 @@ fn command_go(
             #[cfg(daniel729_chess_verif)]
             crate::verif_hooks::schedule_point("after_bestmove_print");
 
-            search_is_running.store(false, Relaxed);
             *current_game = None;
         }
     });
